@@ -22,6 +22,7 @@ def e2eEngine : Engine := fun inp obs =>
       match obs with
       | ["dup"] => .ok "trivial"
       | "setup-failed" :: _ => .bad "could not build the repository"
+      | "fail" :: "-9" :: _ => .viol "C05,C10" "git-sizer did not finish within 20 s on a repository of a few dozen objects"
       | "fail" :: code :: _ => .viol "C01,C10,C19" s!"git-sizer failed (exit {code}) or wrote an unparsable report on a valid repository"
       | ["ok", numS, witS, _grpS, revS, stderrEmpty] =>
         -- contract of git: rev-list lists exactly the closure, children before parents
